@@ -91,8 +91,8 @@ def real_resolve(case, root_dir):
         return {"status": "error", "error": "timeout"}
     except ValueError as e:
         return {"status": "error", "error": "circular" if "Circular" in str(e) else "ValueError"}
-    except FileNotFoundError:
-        return {"status": "error", "error": "notFound"}
+    except FileNotFoundError as e:
+        return {"status": "error", "error": "notFound", "msg": str(e)}
     except SyntaxError as e:
         return {"status": "error", "error": "noPath" if "missing file path" in str(e) else ("manyPaths" if "one file at a time" in str(e) else "SyntaxError"),
                 "msg": str(e)}
@@ -190,6 +190,12 @@ def oracle(case, real, root_dir):
             fail(f"include resolution reported {kind} although plain substitution succeeds")
         elif exp != kind:
             fail(f"include resolution reported {kind}, expected {exp}")
+        elif kind == "notFound":
+            # the report names the file that is really missing (not one of the files that include it)
+            miss = first_missing(files, case["root"], [])
+            head = (real.get("msg") or "").split("\n")[0]
+            if miss and os.path.basename(miss) not in head:
+                fail(f"the missing file is {miss}, the report says: {head[:120]}")
     return fails
 
 
@@ -222,6 +228,22 @@ def substitute(files, path, stack):
         else:
             out.append(l)
     return out
+
+
+def first_missing(files, path, stack):
+    """the normalised path of the first include target that does not exist (walking like the resolver does)"""
+    path = os.path.normpath(path)
+    if path in stack or path not in files:
+        return path if path not in files else None
+    for l in files[path].split("\n"):
+        if l.strip().startswith("@include"):
+            arg = l.strip()[8:].strip()
+            if not arg or " " in arg:
+                return None
+            m = first_missing(files, os.path.join(os.path.dirname(path), arg), stack + [path])
+            if m:
+                return m
+    return None
 
 
 def _chunk(arg):
